@@ -458,6 +458,16 @@ def gen_env_lines(rng, n, cores, page):
         for v in (lo_i - 1, lo_i, hi, hi + 1, 2 * hi + 1, 2 * hi + 2, 2 * hi + 3):
             lines.append("%s %s%s=%s" % (head, ENV_PREFIXES[len(lines) % 2], s, hx(str(v).encode())))
         lines.append("%s ABT_%s=%s" % (head, s, hx(b"junk")))
+    # settings rounded up to a power of two: just above every power of two of the type (a bit-smearing
+    # implementation that forgets one shift fails exactly there), and a few random values in between
+    for s in nums:
+        kind, d, lo, hi, rnd = DOC_ENV[s]
+        if not any(r[0] == "pow2" for r in rnd):
+            continue
+        top = 63 if kind == "sz" else 32
+        for k in range(1, top):
+            for v in (2 ** k + 1, 2 ** k + 1 + rng.below(2 ** min(k, 20))):
+                lines.append("%s %s%s=%s" % (head, ENV_PREFIXES[len(lines) % 2], s, hx(str(v).encode())))
     for s in DOC_ENV:
         if DOC_ENV[s][0] == "bool":
             for w in (b"1", b"0", b"yes", b"OFF", b"x"):
